@@ -160,6 +160,18 @@ pub fn table() -> Vec<(&'static str, RowFn)> {
 		"LinkedList<T> : &[(LT,)]" : LinkedList<u8> => |x| LinkedList<u8>, &[(u8,)], Vec<(u8,)>, x.clone();
 		"BinaryHeap<T> : BinaryHeap<LT>" : BinaryHeap<u16> => |x| BinaryHeap<u16>, BinaryHeap<u16>, BinaryHeap<u16>, x.clone();
 		"&[(T,)] : BinaryHeap<LT>" : Vec<(u8,)> => |x| &[(u8,)], BinaryHeap<u8>, BinaryHeap<u8>, &x[..];
+		// the same aliases over elements that are zero-sized in memory but not on the wire (and over `()`)
+		"&[(T,)] : LinkedList<LT> (zero-sized T)" : Vec<(Marker,)> => |x| &[(Marker,)], LinkedList<Marker>, LinkedList<Marker>, &x[..];
+		"&[(T,)] : BTreeSet<LT> (zero-sized T)" : Vec<(Marker,)> => |x| &[(Marker,)], BTreeSet<Marker>, BTreeSet<Marker>, &x[..];
+		"&[(K,V)] : BTreeMap<LK,LV> (zero-sized K,V)" : Vec<(Marker, MarkerPair)> => |x| &[(Marker, MarkerPair)], BTreeMap<Marker, MarkerPair>, BTreeMap<Marker, MarkerPair>, &x[..];
+		"Vec<&T> : Vec<T> (zero-sized T)" : Vec<Marker> => |x| Vec<&Marker>, Vec<Marker>, Vec<Marker>, x.iter().collect::<Vec<&Marker>>();
+		"VecDeque<&T> : Vec<T> (zero-sized T)" : Vec<MarkerPair> => |x| VecDeque<&MarkerPair>, Vec<MarkerPair>, Vec<MarkerPair>, x.iter().collect::<VecDeque<&MarkerPair>>();
+		"&[T] : Vec<T> (zero-sized T)" : Vec<Marker> => |x| &[Marker], Vec<Marker>, Vec<Marker>, &x[..];
+		"Vec<T> : VecDeque<T> (zero-sized T)" : Vec<MarkerPair> => |x| Vec<MarkerPair>, VecDeque<MarkerPair>, VecDeque<MarkerPair>, x.clone();
+		"[&T;N] : [T;N] (zero-sized T)" : [Marker; 3] => |x| [&Marker; 3], [Marker; 3], [Marker; 3], [&x[0], &x[1], &x[2]];
+		"LinkedList<T> : &[(LT,)] (zero-sized T)" : LinkedList<Marker> => |x| LinkedList<Marker>, &[(Marker,)], Vec<(Marker,)>, x.clone();
+		"&[()] : Vec<()>" : Vec<()> => |x| &[()], Vec<()>, Vec<()>, &x[..];
+		"Vec<&()> : VecDeque<()>" : Vec<()> => |x| Vec<&()>, VecDeque<()>, VecDeque<()>, x.iter().collect::<Vec<&()>>();
 		// option, result, array, tuples
 		"Option<T> : Option<U>" : Option<u32> => |x| Option<&u32>, Option<u32>, Option<u32>, x.as_ref();
 		"Result<T,E> : Result<LT,LE>" : Result<u8, String> => |x| Result<&u8, &String>, Result<u8, String>, Result<u8, String>, x.as_ref();
